@@ -4,6 +4,7 @@ CONSTANTS
   NUp = 2
   NDown = 2
   MaxFaults = 3
+  MaxDrops = 0
 SPECIFICATION Spec
 INVARIANTS TypeOK PrefixDelivered OnlyOwnSegments OneAcceptPerSession OneCurrent NeverDead
 
